@@ -147,6 +147,13 @@ func (c *Ctx) editorCase(text string, extra map[string]any) {
 	c.add(ci)
 }
 
+const typingScript = `vars { monetary $m = balance(@a, USD/2) portion $p account $acc = meta(@a, "k") }
+send [USD/2 100] ( source = { @world { @a @b } max [USD/2 1] from { @c } @d allowing unbounded overdraft { 1/2 from @e remaining from @f } $acc allowing overdraft up to $m }
+  destination = { max [USD/2 1] to @x max $m kept remaining to { $p to @y remaining kept } } )
+send [USD/2 *] ( source = @a allowing unbounded overdraft destination = { 1/3 to @b 2/3 kept } )
+save $m from $acc
+set_account_meta(@a, "k", $m + [USD/2 1])`
+
 func init() {
 	registry["C18"] = func(c *Ctx) {
 		c.group("texts", "c18case", "judge_C18")
@@ -164,6 +171,16 @@ func init() {
 		for _, t := range []string{"vars { number = balance(@a, USD) }", "send [USD 10] (source = @world destination = {1/0 to @a remaining to @b})",
 			"send [USD 1] (source = @a destination = {08% to @a remaining to @b})", "vars { $x }", "vars { monetary", "send [", "set_tx_meta("} {
 			c.editorCase(t, map[string]any{"edit": "corpus"})
+		}
+		// a typing session: one script with every kind of source and destination - among them blocks
+		// that come AFTER an unbounded source - cut after each of its words, as the user types it
+		words := strings.Fields(typingScript)
+		for k := 1; k <= len(words); k++ {
+			sep := " "
+			if k%2 == 0 {
+				sep = "\n  "
+			}
+			c.editorCase(strings.Join(words[:k], sep), map[string]any{"edit": "typing"})
 		}
 		root := NewRand(c.seed)
 		n := c.size(260, 12000)
